@@ -790,54 +790,6 @@ Qed.
 Lemma swallows_false wr : swallows wr = false.
 Proof. destruct wr; reflexivity. Qed.
 
-Theorem child_exit_propagates_proof : forall wr needs lines rest c,
-  collect needs lines = Some rest -> (wr = B64filter -> rest = 0%nat) -> 0 <= c < 256 ->
-  wrapper_status wr needs lines (TExit c) true = Exited c.
-Proof.
-  intros wr needs lines rest c Hc Hb Hr. unfold wrapper_status. rewrite swallows_false, Hc.
-  rewrite (Wait_exit c Hr), Z.mod_small by lia. simpl.
-  destruct wr; try reflexivity. rewrite (Hb eq_refl). reflexivity.
-Qed.
-
-Theorem child_signal_nonzero_proof : forall wr needs lines s core feeder_ok,
-  1 <= s <= 64 -> wrapper_status wr needs lines (TSignal s core) feeder_ok <> Exited 0.
-Proof.
-  intros wr needs lines s core fok Hs. unfold wrapper_status. rewrite swallows_false.
-  destruct (Wait_signal s core Hs) as (_ & Hnz).
-  remember (Wait (wstatus (TSignal s core)) mod 256) as v eqn:Ev. clear Ev.
-  assert (Exited v <> Exited 0) as Hne by (intros H; inversion H; congruence).
-  destruct (collect needs lines) as [rest|]; [|discriminate].
-  destruct fok; cbn [negb]; [|discriminate].
-  destruct wr; try exact Hne.
-  destruct (0 <? rest)%nat; [discriminate|exact Hne].
-Qed.
-
-Theorem child_failure_nonzero_proof : forall wr needs lines c feeder_ok,
-  1 <= c <= 255 -> wrapper_status wr needs lines (TExit c) feeder_ok <> Exited 0.
-Proof.
-  intros wr needs lines c fok Hc. unfold wrapper_status. rewrite swallows_false.
-  assert (Wait (wstatus (TExit c)) mod 256 <> 0) as Hnz by (rewrite Wait_exit, Z.mod_small by lia; lia).
-  remember (Wait (wstatus (TExit c)) mod 256) as v eqn:Ev. clear Ev.
-  assert (Exited v <> Exited 0) as Hne by (intros H; inversion H; congruence).
-  destruct (collect needs lines) as [rest|]; [|discriminate].
-  destruct fok; cbn [negb]; [|discriminate].
-  destruct wr; try exact Hne.
-  destruct (0 <? rest)%nat; [discriminate|exact Hne].
-Qed.
-
-Theorem premature_eof_nonzero_proof : forall wr needs lines t feeder_ok,
-  collect needs lines = None -> wrapper_status wr needs lines t feeder_ok = Signaled SIGABRT.
-Proof.
-  intros wr needs lines t fok Hc. unfold wrapper_status. rewrite swallows_false, Hc. reflexivity.
-Qed.
-
-Theorem feeder_error_nonzero_proof : forall wr needs lines t,
-  wrapper_status wr needs lines t false <> Exited 0.
-Proof.
-  intros wr needs lines t. unfold wrapper_status. rewrite swallows_false.
-  destruct (collect needs lines); simpl; discriminate.
-Qed.
-
 (* collect fails exactly when the child produced fewer lines than the records need *)
 Lemma collect_spec needs : forall avail,
   collect needs avail = if (fold_right Nat.add 0%nat needs <=? avail)%nat then Some (avail - fold_right Nat.add 0%nat needs)%nat else None.
@@ -920,15 +872,6 @@ Proof.
   split; intros fd amount orc r evs orc' E.
   - unfold ReadOrEOF in E. destruct (read_or_eof_spec fd _ _ _ _ _ _ _ (Nat.lt_succ_diag_r _) E) as (H1 & H2 & H3 & H4 & _). auto.
   - unfold ReadOrThrow in E. destruct (read_or_throw_spec fd _ _ _ _ _ _ _ (Nat.lt_succ_diag_r _) E) as (H1 & H2 & H3 & H4). auto.
-Qed.
-
-Theorem premature_eof_lines_proof :
-  forall wr needs lines t feeder_ok,
-  (lines < fold_right Nat.add 0 needs)%nat ->
-  wrapper_status wr needs lines t feeder_ok = Signaled SIGABRT.
-Proof.
-  intros wr needs lines t fok H. apply premature_eof_nonzero_proof.
-  rewrite collect_spec. rewrite (proj2 (Nat.leb_gt _ _)) by exact H. reflexivity.
 Qed.
 
 Theorem iostream_tools_are_checked_proof :
